@@ -885,6 +885,74 @@ async fn serve_tsig(p: Provider, apex: &[u8], qtype: u16, id: u16, serial: u32, 
 
 // ------------------------------------------------------ building zones ----
 
+
+/// The same stream fetched the way an application fetches a transfer: one multi-response request
+/// through `net::client::stream`, whose transport follows the transfer with a state machine of its
+/// own to know where the stream ends. An honest peer sends the messages (with the ID the request
+/// went out with) and then keeps the connection open. Returns the messages handed to the caller
+/// and how the stream ended.
+async fn fetch_via_stream_client(query: &Message<Vec<u8>>, msgs: &[Vec<u8>]) -> (Vec<Vec<u8>>, String) {
+    use domain::net::client::request::{RequestMessage, RequestMessageMulti, SendRequestMulti};
+    use domain::net::client::stream;
+    use tokio::io::{AsyncReadExt, AsyncWriteExt};
+    let (client, mut server) = tokio::io::duplex(1 << 17);
+    let to_send: Vec<Vec<u8>> = msgs.to_vec();
+    let peer = tokio::spawn(async move {
+        let mut lb = [0u8; 2];
+        if server.read_exact(&mut lb).await.is_err() {
+            return;
+        }
+        let mut req = vec![0u8; u16::from_be_bytes(lb) as usize];
+        if server.read_exact(&mut req).await.is_err() || req.len() < 2 {
+            return;
+        }
+        for m in &to_send {
+            let mut f = (m.len() as u16).to_be_bytes().to_vec();
+            f.extend_from_slice(m);
+            f[2] = req[0];
+            f[3] = req[1];
+            if server.write_all(&f).await.is_err() {
+                return;
+            }
+        }
+        // stay connected until the client goes away
+        let mut sink = [0u8; 64];
+        while let Ok(n) = server.read(&mut sink).await {
+            if n == 0 {
+                break;
+            }
+        }
+    });
+    let (conn, tr) = stream::Connection::<RequestMessage<Vec<u8>>, RequestMessageMulti<Vec<u8>>>::new(client);
+    let run = tokio::spawn(tr.run());
+    let mut out = Vec::new();
+    let end = match RequestMessageMulti::new(query.clone()) {
+        Err(e) => format!("request refused: {}", e),
+        Ok(req) => {
+            let mut gr = SendRequestMulti::send_request(&conn, req);
+            loop {
+                match tokio::time::timeout(std::time::Duration::from_secs(5), gr.get_response()).await {
+                    Ok(Ok(Some(m))) => out.push(m.as_slice().to_vec()),
+                    Ok(Ok(None)) => break "end-of-stream".to_string(),
+                    Ok(Err(e)) => break format!("error: {}", e),
+                    Err(_) => break "no end of stream within 5 s".to_string(),
+                }
+                if out.len() > to_send_len_cap(msgs) {
+                    break "more messages than were sent".to_string();
+                }
+            }
+        }
+    };
+    drop(conn);
+    run.abort();
+    peer.abort();
+    (out, end)
+}
+
+fn to_send_len_cap(msgs: &[Vec<u8>]) -> usize {
+    msgs.len() + 2
+}
+
 fn empty_zone(apex: &[u8]) -> Zone {
     ZoneBuilder::new(sname(apex), Class::IN).build()
 }
@@ -1393,6 +1461,27 @@ fn one_case(c: &mut Ctx, rt: &tokio::runtime::Runtime, fam: &str, idx: u64) {
         if incremental && vs.len() - from > 2 {
             k.c.count("multi_step_incremental", 1);
         }
+        // the same legal stream through the stream client's multi-response request: every message, in order, then the end
+        {
+            ctx::step("via-stream-client");
+            match ctx::catch(|| rt.block_on(fetch_via_stream_client(&query, &msgs))) {
+                Err(pi) => k.viol(&format!("panic:{}", pi.site()), &format!("panic in the stream client fetching a {} transfer: {} at {}:{}", kind, pi.msg, pi.file, pi.line)),
+                Ok((got, end)) => {
+                    let same = got.len() == msgs.len() && got.iter().zip(&msgs).all(|(a, b)| a.len() == b.len() && a[2..] == b[2..]);
+                    let steps = if incremental { (vs.len() - from - 1).min(3) } else { 0 };
+                    if !same || end != "end-of-stream" {
+                        let what = if end != "end-of-stream" && got.len() <= msgs.len() { "stream-not-ended-cleanly" } else if got.len() < msgs.len() { "messages-missing" } else if got.len() > msgs.len() { "extra-messages" } else { "messages-altered" };
+                        k.viol(&format!("client-stream:{}:{}", kind, what), &format!("a legal {} transfer ({} difference steps) of {} messages (packaging {:?}) fetched through net::client::stream as a multi-response request: the caller got {} messages, then: {}", kind, steps, msgs.len(), pk, got.len(), end));
+                    } else {
+                        k.c.count("transfers_fetched_through_stream_client", 1);
+                        if steps >= 2 {
+                            k.c.count("multi_step_transfers_fetched_through_stream_client", 1);
+                        }
+                        k.c.eval(&("via-client", kind, steps, msgs.len().min(6)));
+                    }
+                }
+            }
+        }
         k.c.eval(&("pack", kind, pk.splits.len().min(6), pk.compress, pk.question_in_followups, pre.is_empty(), refo.states.len().min(4)));
         // the diff the receiving zone reports for an incremental transfer
         if incremental && refo.states.len() == recv.diffs.len() {
@@ -1483,7 +1572,7 @@ pub fn run(c: &mut Ctx) {
         one_case(c, &rt, fam, idx);
     }
     if !c.replaying() {
-        for key in ["commit_diffs_checked", "end_to_end_full", "end_to_end_incremental", "repackaged_full", "repackaged_incremental", "multi_step_incremental", "transfers_accepted", "transfers_rejected", "sender_multi_message_streams", "aftermath_transfers_checked", "sender_streams_with_reserved_octets"] {
+        for key in ["commit_diffs_checked", "end_to_end_full", "end_to_end_incremental", "repackaged_full", "repackaged_incremental", "multi_step_incremental", "transfers_accepted", "transfers_rejected", "sender_multi_message_streams", "aftermath_transfers_checked", "sender_streams_with_reserved_octets", "transfers_fetched_through_stream_client", "multi_step_transfers_fetched_through_stream_client"] {
             c.floor(key, 5);
         }
     }
